@@ -36,3 +36,50 @@ package router
 //@             && b[8] == byte(addr.addr.hi >> 56) && b[9] == byte(addr.addr.hi >> 48) && b[10] == byte(addr.addr.hi >> 40)
 //@             && b[11] == byte(addr.addr.hi >> 32) && b[12] == byte(addr.addr.hi >> 24) && b[13] == byte(addr.addr.hi >> 16)
 //@             && b[14] == byte(addr.addr.hi >> 8)
+
+// ---- utils.go / router.go: response builders ----------------------------------------------------
+
+//@ func newEDNS0(udpSize uint16) (opt *dnsmsg.RawResource)
+//@   props C12 C09
+//@   modifies nothing
+//@   ensures opt != nil && fresh(opt)
+//@   ensures [C12:own-opt] opt.Type == dnsmsg.TypeOPT && opt.Class == dnsmsg.Class(udpSize < 512 ? 512 : udpSize) && opt.TTL == 0
+//@             && opt.Data == nil && opt.Name == nil
+
+//@ func addOrReplaceOpt(m *dnsmsg.Msg, udpSize uint16)
+//@   props C12
+//@   requires m != nil && wfRecs(m.Additionals)
+//@   modifies *
+//@   ensures wfRecs(m.Additionals) && len(m.Additionals) >= 1
+//@   ensures [C12:last-is-own] isOPT(m.Additionals[len(m.Additionals)-1])
+//@             && typeIs(m.Additionals[len(m.Additionals)-1], *dnsmsg.RawResource)
+//@             && ptrOf(m.Additionals[len(m.Additionals)-1], dnsmsg.RawResource).Data == nil
+//@             && ptrOf(m.Additionals[len(m.Additionals)-1], dnsmsg.RawResource).TTL == 0
+//@             && ptrOf(m.Additionals[len(m.Additionals)-1], dnsmsg.RawResource).Class == dnsmsg.Class(udpSize < 512 ? 512 : udpSize)
+//@   ensures [C12:exactly-one] old(atMostOneOPT(m.Additionals)) ==> atMostOneOPT(m.Additionals)
+
+//@ func makeEmptyRespM(m *dnsmsg.Msg, rcode dnsmsg.RCode) (resp *dnsmsg.Msg)
+//@   props C03 C12
+//@   requires m != nil && forall(k, 0, len(m.Questions), m.Questions[k] != nil)
+//@   modifies nothing
+//@   ensures resp != nil && fresh(resp) && wfMsg(resp)
+//@   ensures [C03:header] resp.ID == m.ID && resp.OpCode == m.OpCode && resp.Response && resp.RecursionAvailable
+//@             && resp.RecursionDesired == m.RecursionDesired && resp.RCode == rcode && !resp.Truncated
+//@   ensures [C03:one-question] len(resp.Questions) == (len(m.Questions) > 0 ? 1 : 0)
+//@   ensures [C03:question-copy] len(m.Questions) > 0 ==> resp.Questions[0] != m.Questions[0]
+//@             && resp.Questions[0].Type == m.Questions[0].Type && resp.Questions[0].Class == m.Questions[0].Class
+//@             && len(resp.Questions[0].Name) == len(m.Questions[0].Name)
+//@             && bytesEq(resp.Questions[0].Name, 0, m.Questions[0].Name, 0, len(m.Questions[0].Name))
+//@   ensures [C12:no-opt] len(resp.Answers) == 0 && len(resp.Authorities) == 0 && len(resp.Additionals) == 0
+
+//@ func makeEmptyResp(q *dnsmsg.Question, rc *RequestContext, rcode uint16)
+//@   props C03 C10 C12
+//@   requires q != nil && rc != nil
+//@   modifies rc.Response.Msg
+//@   ensures rc.Response.Msg != nil && fresh(rc.Response.Msg) && wfMsg(rc.Response.Msg)
+//@   ensures [C10:rcode] rc.Response.Msg.RCode == dnsmsg.RCode(rcode)
+//@   ensures [C03:one-question] len(rc.Response.Msg.Questions) == 1
+//@             && rc.Response.Msg.Questions[0].Type == q.Type && rc.Response.Msg.Questions[0].Class == q.Class
+//@             && len(rc.Response.Msg.Questions[0].Name) == len(q.Name)
+//@             && bytesEq(rc.Response.Msg.Questions[0].Name, 0, q.Name, 0, len(q.Name))
+//@   ensures [C12:no-opt] len(rc.Response.Msg.Answers) == 0 && len(rc.Response.Msg.Authorities) == 0 && len(rc.Response.Msg.Additionals) == 0
